@@ -43,6 +43,9 @@ def c12(tier):
     return [
         R("stats", args={"faults": 1}),
         R("stats", profile="checked", args={"faults": 0}),
+        # "in every build profile, without panicking": a failure at every model call of fit_with_statistics (the optimizer's
+        # final restoring evaluation included) in the profile with debug assertions and overflow checks
+        R("faults", profile="checked", args={"phases": "fitstats"}),
     ]
 
 
@@ -63,7 +66,7 @@ def c08(tier):
 
 
 def c09(tier):
-    return [R("faults")]
+    return [R("faults"), R("faults", profile="checked", args={"phases": "fitstats"})]
 
 
 def c01(tier):
@@ -149,39 +152,39 @@ RULES = {
     "C18": "every call sequence of length <= L (3 quick, 5 thorough; 3 for the 300-sample model) over observations(rows in {0,1,2,3,4} resp. {n-1,n,n+1,0} x cols in {0,1,2,3}), weights(len likewise, all-ones | varied), epsilon(+-1e-2, +-1e-8, 0[, 1e-300, -0; 0.05, -0.125 for the dense model]) for the constructors new/new_parallel/mrhs/mrhs_parallel x model output length {0,1,3,5,300} x {f64,f32}; the 5-sample model has a dense well conditioned 5x3 basis whose exposed initial coefficients/residuals are compared with the reference least-squares solution; for every accepted sequence the exposed residuals must equal W(Y - Phi C) for the exposed coefficients; the 3-sample model has an exactly diagonal basis diag(1, d2) with d2 = 1e-5 or 0.4375*eps so that the threshold in force is observable in the coefficients; every sequence is a distinct case",
     "C17": "ops also include Break(slot,len) / Heal, which change which closure misbehaves DURING a history; environment = which of the 6 closures (3 basis functions, 3 derivatives) of a builder-made model returns a vector of wrong length (0, N-1, N+1, 2N), singly, in all pairs with cancelling totals, and two triples; the model has 4, 1 or 0 samples and three basis functions or a single one; within each environment ALL op sequences up to depth d (3 quick, 5 thorough for the 4-sample three-function model, 3 otherwise) over 19 ops (signed-zero parameter vectors included): eval, eval_partial_deriv(k) for k in {0,1,P,P+1,usize::MAX}, set_params(good a1|a2), set_params of length 0, P-1, P+1, 2P; every step is compared with the reference (last accepted parameters, exact expected matrices, expected error kind and payload); every sequence counts as distinct and non-trivial",
     "C16": "case = one builder-made model with injectively tagged closures: model parameter list = every permutation of {a,b,c} and {a,b,c,d}; a function over every ordered subset (arity 1..4) with every order of supplying its derivatives, with an invariant function before/after/absent; pairs of functions over all pairs of ordered subsets; arity 5..10 on a 10-parameter model with every rotation, every transposition of the identity and of a scattered assignment, three derivative orders, three rotations of the model list; f32 and f64; oracle = exact (bitwise) comparison of eval, every eval_partial_deriv, params round-trip and parameters(); every model is distinct and non-trivial",
-    "C01": "scenario = (family, N, provenance, f32|f64, seq|par, single|mrhs + observation columns, weight kind, threshold kind, alphabet of 4-9 parameter vectors); within a scenario ALL histories of set_params over the alphabet up to depth d are executed on the live problem (d=2 quick, 3 thorough; C10: 3/4), plus three long deterministic walks per scenario (alphabet cyclically x3, every entry repeated x4, ping-pong; 9n steps) beyond the depth bound; state = everything the LeastSquaresProblem interface exposes (bit patterns of params, residuals, coefficients, Jacobian); non-trivial = distinct reached states whose rank class is decidable (Full or Truncated) and on which the heavy oracle ran",
-    "C02": "scenario = (family, N, provenance, f32|f64, seq|par, single|mrhs + observation columns, weight kind, threshold kind, alphabet of 4-9 parameter vectors); within a scenario ALL histories of set_params over the alphabet up to depth d are executed on the live problem (d=2 quick, 3 thorough; C10: 3/4), plus three long deterministic walks per scenario (alphabet cyclically x3, every entry repeated x4, ping-pong; 9n steps) beyond the depth bound; state = everything the LeastSquaresProblem interface exposes (bit patterns of params, residuals, coefficients, Jacobian); non-trivial = distinct reached states whose rank class is decidable (Full or Truncated) and on which the heavy oracle ran",
-    "C03": "scenario = (family, N, provenance, f32|f64, seq|par, single|mrhs + observation columns, weight kind, threshold kind, alphabet of 4-9 parameter vectors); within a scenario ALL histories of set_params over the alphabet up to depth d are executed on the live problem (d=2 quick, 3 thorough; C10: 3/4), plus three long deterministic walks per scenario (alphabet cyclically x3, every entry repeated x4, ping-pong; 9n steps) beyond the depth bound; state = everything the LeastSquaresProblem interface exposes (bit patterns of params, residuals, coefficients, Jacobian); non-trivial = distinct reached states whose rank class is decidable (Full or Truncated) and on which the heavy oracle ran; plus the fault sweep of the C09 engine for the all-or-nothing clause",
-    "C06": "scenario = (family, N, provenance, f32|f64, seq|par, single|mrhs + observation columns, weight kind, threshold kind, alphabet of 4-9 parameter vectors); within a scenario ALL histories of set_params over the alphabet up to depth d are executed on the live problem (d=2 quick, 3 thorough; C10: 3/4), plus three long deterministic walks per scenario (alphabet cyclically x3, every entry repeated x4, ping-pong; 9n steps) beyond the depth bound; state = everything the LeastSquaresProblem interface exposes (bit patterns of params, residuals, coefficients, Jacobian); non-trivial = distinct reached states whose rank class is decidable (Full or Truncated) and on which the heavy oracle ran; every scenario runs the weighted subject and its row-scaled / unweighted / row-deleted / |w| twin, and a subject built with a provisional weights call before the final one, in lock-step; user thresholds 1e-2 / 1e-8 with large, tiny and uniform weights",
-    "C07": "scenario = (family, N, provenance, f32|f64, seq|par, single|mrhs + observation columns, weight kind, threshold kind, alphabet of 4-9 parameter vectors); within a scenario ALL histories of set_params over the alphabet up to depth d are executed on the live problem (d=2 quick, 3 thorough; C10: 3/4), plus three long deterministic walks per scenario (alphabet cyclically x3, every entry repeated x4, ping-pong; 9n steps) beyond the depth bound; state = everything the LeastSquaresProblem interface exposes (bit patterns of params, residuals, coefficients, Jacobian); non-trivial = distinct reached states whose rank class is decidable (Full or Truncated) and on which the heavy oracle ran; every scenario runs the mrhs subject and one single-rhs problem per column in lock-step; scenarios = all ordered selections of 1..3 columns from a 6-column pool (+ two with 4 and 5 columns)",
-    "C10": "scenario = (family, N, provenance, f32|f64, seq|par, single|mrhs + observation columns, weight kind, threshold kind, alphabet of 4-9 parameter vectors); within a scenario ALL histories of set_params over the alphabet up to depth d are executed on the live problem (d=2 quick, 3 thorough; C10: 3/4), plus three long deterministic walks per scenario (alphabet cyclically x3, every entry repeated x4, ping-pong; 9n steps) beyond the depth bound; state = everything the LeastSquaresProblem interface exposes (bit patterns of params, residuals, coefficients, Jacobian); non-trivial = distinct reached states whose rank class is decidable (Full or Truncated) and on which the heavy oracle ran; additionally scenarios whose alphabet contains a parameter vector the model rejects (at set_params or at evaluation), signed zeros, parameter vectors closer together than the user threshold, overflowing parameters; every first-visited state is re-observed under four heap poisons, against a fresh problem and (parallel subjects) inside worker pools of 1 and 3 threads",
-    "C11": "scenario = (family, N, provenance, f32|f64, seq|par, single|mrhs + observation columns, weight kind, threshold kind, alphabet of 4-9 parameter vectors); within a scenario ALL histories of set_params over the alphabet up to depth d are executed on the live problem (d=2 quick, 3 thorough; C10: 3/4), plus three long deterministic walks per scenario (alphabet cyclically x3, every entry repeated x4, ping-pong; 9n steps) beyond the depth bound; state = everything the LeastSquaresProblem interface exposes (bit patterns of params, residuals, coefficients, Jacobian); non-trivial = distinct reached states whose rank class is decidable (Full or Truncated) and on which the heavy oracle ran; every scenario runs the parallel subject and its sequential twin in lock-step (real rayon)",
+    "C01": "scenario = (family, N, provenance, f32|f64, seq|par, single|mrhs + observation columns, weight kind, threshold kind, alphabet of 4-9 parameter vectors incl. signed zeros, duplicates, sub-threshold steps, and decay constants scaled by 1e-17..1e17; families incl. a 4-parameter function declared in permuted order and incidence patterns with gaps; sizes up to 8200 samples); within a scenario ALL histories of set_params over the alphabet up to depth d are executed on the live problem (d=2 quick, 3 thorough; C10: 3/4), plus three long deterministic walks per scenario (alphabet cyclically x3, every entry repeated x4, ping-pong; 9n steps) beyond the depth bound; state = everything the LeastSquaresProblem interface exposes (bit patterns of params, residuals, coefficients, Jacobian); non-trivial = distinct reached states whose rank class is decidable (Full or Truncated) and on which the heavy oracle ran",
+    "C02": "scenario = (family, N, provenance, f32|f64, seq|par, single|mrhs + observation columns, weight kind, threshold kind, alphabet of 4-9 parameter vectors incl. signed zeros, duplicates, sub-threshold steps, and decay constants scaled by 1e-17..1e17; families incl. a 4-parameter function declared in permuted order and incidence patterns with gaps; sizes up to 8200 samples); within a scenario ALL histories of set_params over the alphabet up to depth d are executed on the live problem (d=2 quick, 3 thorough; C10: 3/4), plus three long deterministic walks per scenario (alphabet cyclically x3, every entry repeated x4, ping-pong; 9n steps) beyond the depth bound; state = everything the LeastSquaresProblem interface exposes (bit patterns of params, residuals, coefficients, Jacobian); non-trivial = distinct reached states whose rank class is decidable (Full or Truncated) and on which the heavy oracle ran",
+    "C03": "scenario = (family, N, provenance, f32|f64, seq|par, single|mrhs + observation columns, weight kind, threshold kind, alphabet of 4-9 parameter vectors incl. signed zeros, duplicates, sub-threshold steps, and decay constants scaled by 1e-17..1e17; families incl. a 4-parameter function declared in permuted order and incidence patterns with gaps; sizes up to 8200 samples); within a scenario ALL histories of set_params over the alphabet up to depth d are executed on the live problem (d=2 quick, 3 thorough; C10: 3/4), plus three long deterministic walks per scenario (alphabet cyclically x3, every entry repeated x4, ping-pong; 9n steps) beyond the depth bound; state = everything the LeastSquaresProblem interface exposes (bit patterns of params, residuals, coefficients, Jacobian); non-trivial = distinct reached states whose rank class is decidable (Full or Truncated) and on which the heavy oracle ran; plus the fault sweep of the C09 engine for the all-or-nothing clause",
+    "C06": "scenario = (family, N, provenance, f32|f64, seq|par, single|mrhs + observation columns, weight kind, threshold kind, alphabet of 4-9 parameter vectors incl. signed zeros, duplicates, sub-threshold steps, and decay constants scaled by 1e-17..1e17; families incl. a 4-parameter function declared in permuted order and incidence patterns with gaps; sizes up to 8200 samples); within a scenario ALL histories of set_params over the alphabet up to depth d are executed on the live problem (d=2 quick, 3 thorough; C10: 3/4), plus three long deterministic walks per scenario (alphabet cyclically x3, every entry repeated x4, ping-pong; 9n steps) beyond the depth bound; state = everything the LeastSquaresProblem interface exposes (bit patterns of params, residuals, coefficients, Jacobian); non-trivial = distinct reached states whose rank class is decidable (Full or Truncated) and on which the heavy oracle ran; every scenario runs the weighted subject and its row-scaled / unweighted / row-deleted / |w| twin, and a subject built with a provisional weights call before the final one, in lock-step; user thresholds 1e-2 / 1e-8 with large, tiny and uniform weights; 4100 and 8200 samples with a zero / negative weight past row 4096; whole fits with weight kinds incl. KeepOnly(M+P)",
+    "C07": "scenario = (family, N, provenance, f32|f64, seq|par, single|mrhs + observation columns, weight kind, threshold kind, alphabet of 4-9 parameter vectors incl. signed zeros, duplicates, sub-threshold steps, and decay constants scaled by 1e-17..1e17; families incl. a 4-parameter function declared in permuted order and incidence patterns with gaps; sizes up to 8200 samples); within a scenario ALL histories of set_params over the alphabet up to depth d are executed on the live problem (d=2 quick, 3 thorough; C10: 3/4), plus three long deterministic walks per scenario (alphabet cyclically x3, every entry repeated x4, ping-pong; 9n steps) beyond the depth bound; state = everything the LeastSquaresProblem interface exposes (bit patterns of params, residuals, coefficients, Jacobian); non-trivial = distinct reached states whose rank class is decidable (Full or Truncated) and on which the heavy oracle ran; every scenario runs the mrhs subject and one single-rhs problem per column in lock-step; scenarios = all ordered selections of 1..3 columns from a 6-column pool (+ selections with 4, 5, 33 and 70 columns, and columns whose magnitudes differ by more than the exponent range of the scalar type)",
+    "C10": "scenario = (family, N, provenance, f32|f64, seq|par, single|mrhs + observation columns, weight kind, threshold kind, alphabet of 4-9 parameter vectors incl. signed zeros, duplicates, sub-threshold steps, and decay constants scaled by 1e-17..1e17; families incl. a 4-parameter function declared in permuted order and incidence patterns with gaps; sizes up to 8200 samples); within a scenario ALL histories of set_params over the alphabet up to depth d are executed on the live problem (d=2 quick, 3 thorough; C10: 3/4), plus three long deterministic walks per scenario (alphabet cyclically x3, every entry repeated x4, ping-pong; 9n steps) beyond the depth bound; state = everything the LeastSquaresProblem interface exposes (bit patterns of params, residuals, coefficients, Jacobian); non-trivial = distinct reached states whose rank class is decidable (Full or Truncated) and on which the heavy oracle ran; additionally scenarios whose alphabet contains a parameter vector the model rejects (at set_params or at evaluation), signed zeros, parameter vectors closer together than the user threshold, overflowing parameters; every first-visited state is re-observed under four heap poisons, against a fresh problem and (parallel subjects) inside worker pools of 1 and 3 threads",
+    "C11": "scenario = (family, N, provenance, f32|f64, seq|par, single|mrhs + observation columns, weight kind, threshold kind, alphabet of 4-9 parameter vectors incl. signed zeros, duplicates, sub-threshold steps, and decay constants scaled by 1e-17..1e17; families incl. a 4-parameter function declared in permuted order and incidence patterns with gaps; sizes up to 8200 samples); within a scenario ALL histories of set_params over the alphabet up to depth d are executed on the live problem (d=2 quick, 3 thorough; C10: 3/4), plus three long deterministic walks per scenario (alphabet cyclically x3, every entry repeated x4, ping-pong; 9n steps) beyond the depth bound; state = everything the LeastSquaresProblem interface exposes (bit patterns of params, residuals, coefficients, Jacobian); non-trivial = distinct reached states whose rank class is decidable (Full or Truncated) and on which the heavy oracle ran; every scenario runs the parallel subject and its sequential twin in lock-step (real rayon)",
     "C08": "case = a finite baseline problem (family x N in {1,2,3,4(,8)} x S in {1,2} x provenance x flavour x weights x f32/f64) with <= k positions (each element of x, y, w, the initial alpha, or a later set_params vector) replaced by one of 14 IEEE special values; every case runs build, queries, set_params, fit, fit_with_statistics and all statistics accessors; non-trivial = the basis matrix at the starting parameters is non-finite (the path the property is about). Mode starts (finite inputs only): family x N in {M, M+P, 8, 16, 33} x provenance x flavour x weights x f32/f64 x observation scale (1, tiny, huge, near overflow) x every combination of multipliers (quick 4, thorough 10 values from -10 to 100, wrong signs included) of the generating parameters as the starting point; each case runs the same pipeline",
-    "C09": "case = (scenario, phase in {caller history <= d over 3 parameter vectors, fit, fit_with_statistics}, failing model-call index k < n, transient|persistent, model keeps|stores rejected parameters); non-trivial = the injected failure actually fired",
-    "C12": "case = (family/shape with N from M to M+P+3, width, provenance, weights, one of three solver set-ups that make success independent of the data, build profile) plus a failure at every model call of the statistics phase; non-trivial = statistics code entered (successful fit) and either the identities were checked or the under-determined/faulted case was rejected",
-    "C13": "case = (incidence pattern | Z1-Z5, N, weights, noise vector, amplitude, width, provenance[, parallel]); non-trivial = covariance compared entry-wise with the reference AND all reference variances pairwise distinct (ordering observable)",
-    "C14": "case = (family, nu = N-M-P in 1..30 and 100, weights, width, provenance) x every p of the alphabet (11 levels incl. values within one ulp of 1 in f32), queried largest-first then ascending so that consecutive fits with different degrees of freedom request the same level back to back; nu in 1..30, 100, 995, 1001, 1201, 5000; non-trivial = fits whose band was compared with the reference table",
+    "C09": "scenarios incl. parallel problems whose Jacobian has more than 2^15 entries (128 samples x 70 right-hand sides, 8200 samples); case = (scenario, phase in {caller history <= d over 3 parameter vectors, fit, fit_with_statistics}, failing model-call index k < n, transient|persistent, model keeps|stores rejected parameters); non-trivial = the injected failure actually fired",
+    "C12": "case = (family/shape with N from M to M+P+3, width, provenance, weights, one of four solver set-ups (default, huge xtol, zero observations, zero tolerances = a failed fit), build profile) plus a failure at every model call of the statistics phase, plus bit-exact perfect fits (one basis function, exactly representable values), plus every case of the C13 grid (and, thorough, of the C14 grid); non-trivial = statistics code entered (successful fit) and either the identities were checked or the under-determined/faulted case was rejected",
+    "C13": "case = (incidence pattern | Z1-Z5, N incl. values around 128/1024, weights incl. zero/negative entries and KeepOnly(M+P[+1,+3]) = exact zeros everywhere else, noise vector, amplitude 1e-5..4e9, width, provenance[, parallel]); builder call order varied with (N+S) mod 3; non-trivial = covariance compared entry-wise with the reference AND all reference variances pairwise distinct (ordering observable)",
+    "C14": "case = (family, nu = N-M-P in 1..30 and 100, weights, width, provenance, amplitude 1, 1e-6, 1e6) x every p of the alphabet (11 levels incl. values within one ulp of 1 in f32), queried largest-first then ascending so that consecutive fits with different degrees of freedom request the same level back to back; nu in 1..30, 100, 995, 1001, 1201, 5000; non-trivial = fits whose band was compared with the reference table",
     "C15": "every word new(l).s1..sk.build() with l from 6 parameter lists and s_i from the 26-symbol alphabet, k <= L (L=4 quick, 6 thorough), plus every <=k-edit deviation (insert/delete/substitute/swap over a 58-symbol pool; k=1 quick, 2 thorough) of 10 valid templates; each word is executed on the real builder and on the reference specification automaton; a state is a builder call history (the builder accumulates its history, so the state graph is the word tree); every word counts as distinct and non-trivial",
 }
 
 ASSUMPTIONS = {
-    "C04": ["the scripted model is a legal SeparableNonlinearModel: its value is a function of alpha (answers are remembered per parameter vector)", "scripted fits exercise the optimizer's control flow with M=1, N=2; the linear algebra is exercised by the fitgrid part"],
+    "C04": ["models that are not functions of alpha (transient failures) are covered by the fault sweep over whole fits (engine faults, phases=fit)", "the scripted model is a legal SeparableNonlinearModel: its value is a function of alpha (answers are remembered per parameter vector)", "scripted fits exercise the optimizer's control flow with M=1, N=2; the linear algebra is exercised by the fitgrid part"],
     "C05": ["certified region (measured over 8 noise seeds): two-decay instances up to noise 1e-3, three-decay instances up to 1e-3 with N >= 64 (1e-4 for N = 32); outside it fits may legitimately fail and are not part of the grid", "tolerances: reproduction 1e-9 (f64) / 2e-5 (f32) relative; stationarity 1e-5 / 5e-2"],
     "C18": ["reference validation function in harness/src/bin/pbuilder.rs", "threshold cases within a factor 2 of the singular value are not judged"],
-    "C17": ["one 3-function / 2-parameter model with N = 4 samples is representative of the guards, which do not depend on the model's size"],
+    "C17": ["two builder-made models (three basis functions / a single one, two parameters) with 4, 1 and 0 samples stand for the guards, which do not depend on the model's size otherwise", "models with more than 4 samples are exercised by the other engines through builder-made models, not by the misuse automaton"],
     "C16": ["tag encoding is injective: parameter values 3+2k, function tag 1000+j, derivative tag 2000+100j+q, x = 500+i are pairwise distinct and exactly representable in f32"],
     "C01": ["reference linear algebra: one-sided Jacobi SVD in f64 (harness/src/refla.rs)", "states within a factor 2 of the threshold (plus rounding floor) are not judged"],
     "C02": ["identity tolerance 16(M+2) eps scaled"],
     "C03": ["full-rank states with 256 max(N,M) eps kappa <= 1e-2 only"],
-    "C06": ["tolerance 1024 eps kappa^2 when twins are not bitwise equal"],
-    "C07": ["tolerance 1024 eps kappa^2 when blocks are not bitwise equal"],
+    "C06": ["tolerance 1024 eps kappa^2 when twins are not bitwise equal", "a difference in the availability of statistics is judged only when the available covariance belongs to a well conditioned matrix (an exactly singular pivot on one side is a rounding artefact)"],
+    "C07": ["tolerance 1024 eps kappa^2, relative to the scale of the compared column only, when blocks are not bitwise equal"],
     "C10": ["alphabets of parameter vectors, not all reals"],
     "C11": ["the shim's join_context is faithful to rayon's (DESIGN.md appendix A): a job is either popped back by its owner after the first closure or stolen and run concurrently", "tasks are atomic between scheduling points (spawn, join, entry of each derivative evaluation, lock operations): exact for data-race-free tasks", "for current_num_threads smaller than the number of live tasks the shim over-approximates the real pool (more concurrency than possible), which can only add schedules"],
     "C08": ["a case that is silent for 4 s is counted as not returning", "values outside the 14-value alphabet are not tried"],
     "C09": ["failures are injected by a wrapper model; the wrapped zoo models never fail on their own"],
-    "C12": ["shapes up to M,P <= 3"],
-    "C13": ["reference covariance from one-sided Jacobi SVD in f64; comparison skipped when 4096*eps*kappa(H^T H) > 0.25"],
-    "C14": ["reference quantiles from scipy.stats.t (harness/data/tquant.json)", "tolerance 2e-4 reflects the accuracy of the distrs crate's quantile"],
+    "C12": ["under-determined shapes up to M,P <= 3; the identities are additionally judged on every successful fit of the covariance grid (and, thorough, of the band grid)", "success of a fit is read off the optimizer's TerminationReason, not off FitResult::was_successful()"],
+    "C13": ["reference covariance from one-sided Jacobi SVD in f64; entry-wise comparison skipped when 4096*eps*kappa(H^T H) > 0.25 (finiteness, accessors and the correlation identity are judged for every Ok result)", "sigma^2 of the reference is rebuilt from W(y - Phi c); the library's value is used only when the two agree within the rounding of the residuals"],
+    "C14": ["reference quantiles from scipy.stats.t (harness/data/tquant.json)", "tolerance 2e-4 reflects the accuracy of the distrs crate's quantile", "the band is compared with t*sqrt(j^T Cov j) for the covariance the library reports (C13 judges that covariance); samples whose quadratic form cancels by more than 1e-2/(64 eps dim) are only required to be finite and non-negative"],
     "C15": [
         "the reference automaton in harness/src/mbref.rs is the specification (written from the property text and rustdoc)",
         "function arities 1..3 and the name pool {a,b,c,d,'a,b'} are representative of arities 1..10 (the builder logic is arity-generic; the per-arity dispatch is C16's subject)",
